@@ -441,6 +441,9 @@ def _normalize_python_version_specifier(marker: MarkerExpression) -> BaseSpecifi
         # skip this case, so in the following code value must be a dotted version string
         return marker.specifier
     splitted = [p.strip() for p in value.split(".")]
+    if len(splitted) == 3 and splitted[2] == "0":
+        # python_version "X.Y.0" (as re-rendered from "X.Y.*") is just "X.Y"
+        splitted.pop()
     if len(splitted) > 2 or "*" in splitted:
         return marker.specifier
     if len(splitted) == 1:
